@@ -16,7 +16,8 @@ OUTS = "(Vec<ReadPlan>, usize, usize)"
 
 UNIT = dict(
     name="batch_read_plan",
-    props=["C03", "C01", "C02", "C12"],
+    props=["C03", "C01", "C02", "C12", "C11", "C16"],
+    implicit_props=["C03", "C01", "C02", "C12"],  # the properties every obligation of the unit counts for; the others only through labelled clauses
     prelude=["core_types.rs", "engine.rs"],
     assumptions=[
         "context W (well-formed bytes), A-IO (positional reads inside the file are complete), A-ARITH",
